@@ -205,6 +205,44 @@ func registerWeb(p *Program) {
 		return Tuple{sl, Iface{}}
 	}
 
+	// zxcvbn.PasswordStrength(password, userInputs): an uninterpreted scoring function of the
+	// password and the user inputs (functional consistency only): score 0..4, entropy and crack
+	// time arbitrary non-negative values (31 bits, as float64).
+	I["github.com/nbutton23/zxcvbn-go.PasswordStrength"] = func(in *Interp, fr *frame, a []Value) Value {
+		ts := in.ts
+		args := [][]*Term{a[0].(Str).B}
+		if sl, ok := a[1].(Slice); ok {
+			for i := 0; i < sl.Len; i++ {
+				args = append(args, sl.Obj.Slots[sl.Off+i].(Str).B)
+			}
+		}
+		res := in.ufApplyKind("zxcvbn", args, 9, false)
+		t := in.namedType("github.com/nbutton23/zxcvbn-go/scoring", "MinEntropyMatch")
+		st := under(t).(*types.Struct)
+		v := in.zero(t).(StructV)
+		u31 := func(b []*Term) *Term {
+			x := b[0]
+			for _, y := range b[1:] {
+				x = ts.Concat(x, y)
+			}
+			return ts.BvAnd(ts.Zext(x, 64), ts.Const(64, 1<<31-1))
+		}
+		for i := 0; i < st.NumFields(); i++ {
+			switch st.Field(i).Name() {
+			case "Password":
+				v[i] = a[0]
+			case "Score":
+				sc := ts.Zext(res[0], 64)
+				in.assume(ts.Ule(sc, ts.Const(64, 4)))
+				v[i] = sc
+			case "Entropy":
+				v[i] = ts.FPFrom(u31(res[1:5]), false)
+			case "CrackTime":
+				v[i] = ts.FPFrom(u31(res[5:9]), false)
+			}
+		}
+		return v
+	}
 	I["net/http.MaxBytesReader"] = func(in *Interp, fr *frame, a []Value) Value {
 		t := in.namedType("net/http", "maxBytesReader")
 		o := in.newObj(t)
